@@ -241,6 +241,11 @@ def build(tier, repo):
             else:
                 r7.violation(key, m.where(blk, imf), "a scalar right-hand side (A*x <= 1) is stored as 1x1 and handed to solvers.lp as h", "len(constant) == len(constraint)", "no test")
     r7.require(4)
+    from .. import solver_rules as sr5
+    r8 = chk.rule("C12-R8", "loops of the epigraph expansion run over the length of the sequence they subscript",
+                  "every piece of a max / sum-of-max term becomes a constraint of the LP")
+    chk.note_analysed("piece_loops", sr5.loop_bound_domain_rule(r8, w))
+    r8.require(4)
     return chk
 
 
